@@ -10,6 +10,7 @@ pub mod c10;
 pub mod c12;
 pub mod c13;
 pub mod c14;
+pub mod c15;
 pub mod common;
 pub mod issue;
 pub mod jwtk;
@@ -56,6 +57,7 @@ pub fn generate(id: &str, thorough: bool, seed: u64, em: &mut Emitter) {
         "C12" => c12::generate(thorough, seed, em),
         "C13" => c13::generate(thorough, seed, em),
         "C14" => c14::generate(thorough, seed, em),
+        "C15" => c15::generate(thorough, seed, em),
         "C16" => jwtk::generate_c16(thorough, seed, em),
         _ => panic!("unknown property {}", id),
     }
@@ -69,6 +71,7 @@ pub fn execute(kind: &str, input: &Value) -> Value {
         "present" => present::exec_present(input),
         "bstep" => jwtk::exec_bstep(input),
         "history" => c13::exec_history(input),
+        "yaml" => c15::exec_yaml(input),
         "decode" => jwtk::exec_decode(input),
         _ => json!({"harness_error": format!("unknown kind {}", kind)}),
     }
